@@ -179,8 +179,26 @@ def close_lists(impl: str, model: str, mode: str, ordered: bool = False) -> bool
     return True
 
 
-def compare(ctx: Ctx, todo, replies) -> None:
-    for (op, inp, impl), model in zip(todo, replies):
+def _is_tie(ctx: Ctx, req: str, model: str) -> bool:
+    """F stream: is the model's own answer unstable under ±4 ulp nudges of every scalar of the request?"""
+    import random
+    from vcheck import ulp_nudge, f2hex
+    rnd = random.Random(req)
+    variants = []
+    for _ in range(6):
+        toks = req.split(" ")
+        for i, t in enumerate(toks):
+            if i >= 2 and len(t) == 16 and all(c in "0123456789abcdef" for c in t):
+                x = hex2f(t)
+                if x != 0.0:
+                    toks[i] = f2hex(ulp_nudge(x, rnd.choice([-4, -2, -1, 1, 2, 4])))
+        variants.append(" ".join(toks))
+    out = ctx.model(variants)
+    return out is None or any(not close_lists(o, model, "F") for o in out)
+
+
+def compare(ctx: Ctx, todo, replies, reqs) -> None:
+    for (op, inp, impl), model, req in zip(todo, replies, reqs):
         if impl == model:
             continue
         if op == "initgrid" and close_lists(impl, model, inp["mode"], ordered=True):
@@ -188,6 +206,9 @@ def compare(ctx: Ctx, todo, replies) -> None:
             continue
         if inp.get("mode") == "F" and op != "heap" and close_lists(impl, model, "F"):
             ctx.drift += 1
+            continue
+        if inp.get("mode") == "F" and op in ("splitrects", "diesplit") and _is_tie(ctx, req, model):
+            ctx.ties += 1       # which of several (nearly) equal rectangles is split depends on rounding: not binding
             continue
         ctx.disagree(op, inp, impl[:2000], model[:2000], size=inp.get("size", 0))
 
@@ -248,10 +269,12 @@ def split_case(ctx: Ctx, mode, ins, ratio, n, reqs, todo) -> None:
         impl, outs = "err:Assert", None
     except IndexError:
         impl, outs = "err:IndexError", None
+    except Exception as ex:
+        impl, outs = "err:" + type(ex).__name__, None
     admissible = n >= 1 and ratio > 1.415 and len(ins) >= 1
     if outs is None:
-        if admissible:
-            ctx.spec_fail("split_terminates:raises", inp, {"raised": impl}, inp["size"])
+        if admissible or impl not in ("err:Assert", "err:IndexError"):
+            ctx.spec_fail("operation-raised", inp, {"raised": impl}, inp["size"])
     else:
         if admissible:
             spec_split(ctx, inp, mode, ins, outs, ratio, n)
@@ -329,8 +352,8 @@ def die_case(ctx: Ctx, mode, dy, ny, ratio, n, reqs, todo) -> None:
     inp = {"op": "diesplit", "mode": mode, "die": dy, "netlist": ny, "ratio": ratio, "n": n, "size": n}
     try:
         d = make_die(dy, ny)
-    except AssertionError:
-        ctx.count("die:rejected-by-constructor")
+    except Exception as ex:   # construction of the die belongs to C01: not judged here
+        ctx.count("die:rejected-by-constructor:" + type(ex).__name__)
         Rectangle.undefine_epsilon()
         return
     try:
@@ -346,10 +369,12 @@ def die_case(ctx: Ctx, mode, dy, ny, ratio, n, reqs, todo) -> None:
             impl, st1 = "err:Assert", None
         except IndexError:
             impl, st1 = "err:IndexError", None
+        except Exception as ex:
+            impl, st1 = "err:" + type(ex).__name__, None
         admissible = n >= 1 and ratio > 1.415 and len(ins) >= 1
         if st1 is None:
-            if admissible:
-                ctx.spec_fail("split_terminates:raises", inp, {"raised": impl}, inp["size"])
+            if admissible or impl not in ("err:Assert", "err:IndexError"):
+                ctx.spec_fail("operation-raised", inp, {"raised": impl}, inp["size"])
         else:
             refinable, fixed_after = d.floorplanning_rectangles()
             outs = [rect_dict(r) for r in refinable]
@@ -378,7 +403,7 @@ def grid_case(ctx: Ctx, mode, dy, ny, nr, nc, reqs, todo) -> None:
     inp = {"op": "initgrid", "mode": mode, "die": dy, "netlist": ny, "nrows": nr, "ncols": nc, "size": nr * nc}
     try:
         d = make_die(dy, ny)
-    except AssertionError:
+    except Exception:
         Rectangle.undefine_epsilon()
         return
     try:
@@ -390,11 +415,13 @@ def grid_case(ctx: Ctx, mode, dy, ny, nr, nc, reqs, todo) -> None:
             impl = die_out(st1, mode)
         except AssertionError:
             impl, st1 = "err:Assert", None
+        except Exception as ex:
+            impl, st1 = "err:" + type(ex).__name__, None
         clean = not st0["specialized"] and not st0["blockages"] and not st0["fixed"] and len(st0["ground"]) == 1
         ok_args = nr > 0 and nc > 0 and nr + nc > 1
         if st1 is None:
-            if clean and ok_args:
-                ctx.spec_fail("initialGrid_isOk", inp, {"raised": "AssertionError"}, inp["size"])
+            if (clean and ok_args) or impl != "err:Assert":
+                ctx.spec_fail("operation-raised", inp, {"raised": impl, "where": "initial_grid"}, inp["size"])
         else:
             outs = [rect_dict(r) for r in d.floorplanning_rectangles()[0]]
             if len(outs) != nr * nc:
@@ -442,20 +469,20 @@ def run(ctx: Ctx) -> None:
         split_case(ctx, "Q", [{"cx": w / 2, "cy": h / 2, "w": w, "h": h, "region": "_", "fixed": False, "hard": False, "loc": "X"}],
                    ratio, n, reqs, todo)
     die_case(ctx, "Q", "4.0x4.0", None, 1.5, 2, reqs, todo)
-    for i in range(ctx.n(450, 9000)):
+    for i in range(ctx.n(2000, 30000)):
         mode = "Q" if i % 3 != 2 else "F"
         ratio, n = pick(rng, mode, nmax)
         if rng.random() < 0.04:
             ratio, n = rng.choice([(1.25, n), (ratio, 0), (1.0, 0)])
         split_case(ctx, mode, gen_rect_list(rng, mode), ratio, n, reqs, todo)
-    for i in range(ctx.n(350, 7000)):
+    for i in range(ctx.n(1300, 20000)):
         mode = "Q" if i % 3 != 2 else "F"
         ratio, n = pick(rng, mode, nmax)
         dy, ny = gen_die_yaml(rng, mode)
         if rng.random() < 0.03:
             ratio, n = rng.choice([(1.25, n), (ratio, 0)])
         die_case(ctx, mode, dy, ny, ratio, n, reqs, todo)
-    for i in range(ctx.n(150, 3000)):
+    for i in range(ctx.n(500, 8000)):
         mode = "Q" if i % 3 != 2 else "F"
         if rng.random() < 0.75:
             u = 0.25 if mode == "Q" else 0.1
@@ -465,13 +492,13 @@ def run(ctx: Ctx) -> None:
         else:
             dy, ny = gen_die_yaml(rng, mode)
         grid_case(ctx, mode, dy, ny, rng.choice([0, 1, 1, 2, 3, 4, 5, 6]), rng.choice([0, 1, 1, 2, 3, 4, 5, 6]), reqs, todo)
-    for _ in range(ctx.n(400, 8000)):
+    for _ in range(ctx.n(2000, 40000)):
         heap_case(ctx, gen_heap_script(rng), reqs, todo)
     replies = ctx.model(reqs)
     if replies is None:
         ctx.notes.append("model driver unavailable: correspondence not run")
         return
-    compare(ctx, todo, replies)
+    compare(ctx, todo, replies, reqs)
 
 
 def _replay_one(ctx, inp, reqs, todo) -> None:
@@ -491,4 +518,4 @@ def replay(ctx: Ctx, body: dict) -> None:
     _replay_one(ctx, body["input"], reqs, todo)
     replies = ctx.model(reqs)
     if replies:
-        compare(ctx, todo, replies)
+        compare(ctx, todo, replies, reqs)
